@@ -863,7 +863,19 @@ def py_of_sc(a):
     return Other()
 
 
+def args_json(a, with_env=True):
+    """init arguments of a typed element spec in the driver's layout"""
+    return {'value': val_json(py_of_val(a['value']), with_env=with_env) if a.get('value') is not None else {'k': 'none'},
+            'type': a.get('type'), 'is_array': a.get('is_array'), 'emb': a.get('emb'), 'refclass': bool(a.get('refclass'))}
+
+
 def py_of_val(v):
+    if v['k'] == 'prop':
+        import pywbem
+        kw = {}
+        if v.get('is_array') is not None:
+            kw['is_array'] = v['is_array']
+        return pywbem.CIMProperty(v['name'], py_of_val(v['value']), type=v.get('type'), **kw)
     if v['k'] == 'list':
         return [py_of_sc(s) for s in v['l']]
     return py_of_sc(v)
@@ -926,6 +938,8 @@ def sc_json(o, with_env=False):
         return {'k': 'instance', 't': bool(o)}
     if isinstance(o, pywbem.CIMClass):
         return {'k': 'class'}
+    if isinstance(o, tuple):
+        return {'k': 'tuple', 't': bool(o)}
     return {'k': 'obj', 't': bool(o)}
 
 
@@ -1089,6 +1103,95 @@ def cv_req(c, v):
 
 
 
+
+# ----------------------------------------------------------------------------------------------- constructors
+
+CTOR_KINDS = ['CIMProperty', 'CIMParameter', 'CIMQualifier', 'CIMQualifierDeclaration']
+
+
+def gen_ctor_cases(rng, thorough):
+    """__init__ of the four typed element classes with every combination of the arguments that decide what is stored
+    (value incl. arrays / None, type incl. None = inferred and unknown names, is_array, embedded_object, reference_class),
+    followed by 0..3 assignments through the value setter"""
+    S = sc_spec_values(rng)
+    cases = []
+    n = 12000 if thorough else 2500
+    for _ in range(n):
+        kind = rng.choice(CTOR_KINDS)
+        t = rng.choice(ALL_TYPES + [None, None, 'uint', 'reference'])
+        pool = related_values(rng, t) if (t in ALL_TYPES and rng.random() < 0.6) else S
+        v = rng.choice(pool)
+        r = rng.random()
+        if r < 0.2:
+            v = {'k': 'list', 'l': [v] + [rng.choice([v, {'k': 'none'}, rng.choice(S)]) for _ in range(rng.randint(0, 2))]}
+        elif r < 0.25:
+            v = {'k': 'list', 'l': []}
+        elif r < 0.35:
+            v = {'k': 'none'}
+        a = {'value': v, 'type': t, 'is_array': rng.choice([None, None, True, False]) if kind != 'CIMQualifier' else None,
+             'emb': rng.choice([None, None, None, False, 'instance', 'object', 'foo']) if kind in ('CIMProperty', 'CIMParameter') else None,
+             'refclass': (rng.random() < 0.15) if kind == 'CIMProperty' else False}
+        vals = []
+        for _i in range(rng.choice([0, 0, 1, 2, 3])):
+            w = rng.choice(related_values(rng, t) if (t in ALL_TYPES and rng.random() < 0.6) else S)
+            if rng.random() < 0.15:
+                w = {'k': 'list', 'l': [w, rng.choice([w, {'k': 'none'}])]}
+            vals.append(w)
+        cases.append({'sub': 'ctor', 'kind': kind, 'args': a, 'values': vals})
+    return cases
+
+
+def run_ctor_real(run, c):
+    import pywbem
+    a = c['args']
+    v = py_of_val(a['value'])
+    kind = c['kind']
+    via = kind + '()'
+    try:
+        if kind == 'CIMProperty':
+            o = pywbem.CIMProperty('p', v, type=a['type'], is_array=a['is_array'], embedded_object=a['emb'],
+                                   reference_class='X' if a['refclass'] else None)
+        elif kind == 'CIMParameter':
+            o = pywbem.CIMParameter('p', a['type'], value=v, is_array=a['is_array'], embedded_object=a['emb'])
+        elif kind == 'CIMQualifier':
+            o = pywbem.CIMQualifier('q', v, type=a['type'])
+        else:
+            o = pywbem.CIMQualifierDeclaration('q', a['type'], value=v, is_array=a['is_array'])
+    except Exception as e:  # noqa
+        out = exc_class(e)
+        if out['exc'] not in ('TypeError', 'ValueError'):
+            run.violate({'kind': 'cimvalue_leaks_exception', 'exc': out['exc'], 'via': via}, c, out)
+        return out
+
+    def check(given, how):
+        vals = o.value if isinstance(o.value, list) else [o.value]
+        giv = given if isinstance(given, list) and isinstance(o.value, list) and len(given) == len(vals) else [None] * len(vals)
+        if not isinstance(o.value, list):
+            giv = [given if not isinstance(given, list) else None]
+        for ri, vi in zip(vals, giv):
+            check_stored(run, c, {'element': kind, 'type': o.type, 'holds': repr(ri)[:80]}, ri, vi, o.type, via=how)
+
+    check(v, via)
+    out = {'ok': elem_json(o), 'steps': []}
+    for w in c['values']:
+        pw = py_of_val(w)
+        try:
+            o.value = pw
+            ex = None
+            check(pw, kind + '.value')
+        except Exception as e:  # noqa
+            ex = exc_class(e)
+            if ex['exc'] not in ('TypeError', 'ValueError'):
+                run.violate({'kind': 'cimvalue_leaks_exception', 'exc': ex['exc'], 'via': kind + '.value'}, c, ex)
+        out['steps'].append({'exc': ex, 'elem': elem_json(o)})
+    return out
+
+
+def ctor_req(c):
+    return {'op': 'elem', 'kind': c['kind'], 'args': args_json(c['args']),
+            'values': [val_json(py_of_val(w), with_env=True) for w in c['values']]}
+
+
 # ----------------------------------------------------------------------------------------------- sequences
 
 SEQ_FORMS = ['kwargs', 'tuples', 'dict', 'nocasedict', 'instname', 'instance']
@@ -1152,6 +1255,15 @@ def gen_seq_cases(rng, thorough):
             r = rng.random()
             return pr['name'].lower() if r < 0.2 else ('Qx' if r < 0.27 else pr['name'])
 
+        def given_for(pr, nm):
+            """what update()/__setitem__ get: a plain value or a CIMProperty object (right or wrong name, typed or inferred)"""
+            v = val_for(pr)
+            if rng.random() < 0.3:
+                return {'k': 'prop', 'name': nm if rng.random() < 0.85 else 'Other', 'value': v,
+                        'type': rng.choice([pr['type'], pr['type'], None, rng.choice(ALL_TYPES)]),
+                        'is_array': rng.choice([None, None, None, True, False])}
+            return v
+
         ops = []
         for _ in range(rng.randint(2, 6)):
             r = rng.random()
@@ -1160,10 +1272,15 @@ def gen_seq_cases(rng, thorough):
                 ops.append({'op': 'update_existing', 'form': rng.choice(SEQ_FORMS), 'items': [[name_of(pr), val_for(pr)] for pr in chosen]})
             elif r < 0.62:
                 chosen = [rng.choice(props) for _ in range(rng.randint(1, 2))]
-                ops.append({'op': 'update', 'form': rng.choice(SEQ_FORMS), 'items': [[name_of(pr), val_for(pr)] for pr in chosen]})
+                its = []
+                for pr in chosen:
+                    nm = name_of(pr)
+                    its.append([nm, given_for(pr, nm)])
+                ops.append({'op': 'update', 'form': rng.choice(['kwargs', 'tuples', 'dict', 'nocasedict']), 'items': its})
             elif r < 0.72:
                 pr = rng.choice(props)
-                ops.append({'op': 'setitem', 'items': [[name_of(pr), val_for(pr)]]})
+                nm = name_of(pr)
+                ops.append({'op': 'setitem', 'items': [[nm, given_for(pr, nm)]]})
             elif r < 0.9 or not elems:
                 pr = rng.choice(props)
                 ops.append({'op': 'propvalue', 'items': [[pr['name'], val_for(pr)]]})
@@ -1190,11 +1307,28 @@ def seq_build(c):
     return inst, elems
 
 
+def seq_key(name):
+    """abstract key of a property name (NocaseDict identity): P<i> -> i, anything else by a stable small table"""
+    n = name.lower()
+    if n.startswith('p') and n[1:].isdigit():
+        return int(n[1:])
+    return {'qx': 99}.get(n, 98)
+
+
+def elem_json(o):
+    return {'type': o.type, 'value': val_json(o.value), 'is_array': bool(getattr(o, 'is_array', False)),
+            'emb': getattr(o, 'embedded_object', None)}
+
+
 def seq_state(inst, elems):
     st = {}
     for name, prop in inst.properties.items():
         st[name.lower()] = [prop.type, val_json(prop.value)]
-    return {'props': st, 'elems': [[e.type, val_json(e.value)] for e in elems]}
+    return {'props': st, 'elems': [[e.type, val_json(e.value)] for e in elems],
+            'full': [[seq_key(name), elem_json(prop)] for name, prop in inst.properties.items()]}
+
+
+SPECS = {}
 
 
 def seq_mapping(form, items):
@@ -1202,6 +1336,8 @@ def seq_mapping(form, items):
     import pywbem
     from pywbem._nocasedict import NocaseDict
     pairs = [(n, py_of_val(v)) for n, v in items]
+    SPECS.clear()
+    SPECS.update((id(pv), (pv, sp)) for (n, pv), (_n, sp) in zip(pairs, items))     # which spec an object came from
     if form == 'kwargs':
         return (), dict(pairs), list(dict(pairs).items())
     if form == 'tuples':
@@ -1233,12 +1369,15 @@ def run_seq_real(run, c):
                 args, kw, eff = seq_mapping(op['form'], op['items'])
             else:
                 eff = [(n, py_of_val(v)) for n, v in op['items']]
+                SPECS.clear()
+                SPECS.update((id(pv), (pv, sp)) for (n, pv), (_n, sp) in zip(eff, op['items']))
         except Exception as e:  # noqa      the argument object itself cannot be built: nothing was given to the instance
             rec['out'] = 'setup:' + type(e).__name__
             steps.append(rec)
             run.count('seq-step:setup-failed')
             continue
         rec['eff'] = eff
+        rec['specs'] = [SPECS.get(id(pv), (None, None))[1] for _n, pv in eff]
         try:
             if kind == 'update':
                 inst.update(*args, **kw)
@@ -1280,49 +1419,64 @@ def run_seq_real(run, c):
     return steps
 
 
+def given_json(spec, pyval):
+    """an item value for the model: a plain value, or the init arguments of the CIMProperty object that was given"""
+    if isinstance(spec, dict) and spec.get('k') == 'prop':
+        a = args_json({'value': spec['value'], 'type': spec.get('type'), 'is_array': spec.get('is_array')})
+        a['name'] = seq_key(spec['name'])
+        return {'prop': a}
+    return {'value': val_json(pyval, with_env=True)}
+
+
 def seq_requests(c, steps):
-    """model side: what the typed setter behind update_existing() / .value must do with each given value
-    (cimvalue(value, type of the existing element)); returns [(step index, item index, name, request)]"""
-    reqs = []
+    """model side: the whole history through Model/TypedElems.lean (one 'hist' request) and one 'elem' request per
+    standalone parameter / qualifier / qualifier declaration object; returns [(tag, step indices, request)]"""
+    ops, sidx = [], []
+    per_elem = {}
     for si, (op, rec) in enumerate(zip(c['ops'], steps)):
-        if rec.get('eff') is None or op['op'] not in ('update_existing', 'propvalue', 'elemvalue'):
+        if rec.get('eff') is None:
+            continue                                    # the argument object could not be built: nothing was given
+        if op['op'] == 'elemvalue':
+            per_elem.setdefault(op['idx'], []).append((si, val_json(rec['eff'][0][1], with_env=True)))
             continue
-        for ii, (n, v) in enumerate(rec['eff']):
-            if op['op'] == 'elemvalue':
-                t = rec['before']['elems'][op['idx']][0]
-            else:
-                ent = rec['before']['props'].get(n.lower() if isinstance(n, str) else n)
-                if ent is None:
-                    continue
-                t = ent[0]
-            reqs.append((si, ii, n, {'op': 'cv', 'v': val_json(v, with_env=True), 't': t}))
+        if op['op'] == 'update_existing':
+            items = [{'key': seq_key(n), 'value': val_json(v, with_env=True)} for n, v in rec['eff']]
+        elif op['op'] in ('update', 'setitem'):
+            items = [dict({'key': seq_key(n)}, **given_json(sp, v)) for (n, v), sp in zip(rec['eff'], rec['specs'])]
+        else:
+            items = [{'key': seq_key(n), 'value': val_json(v, with_env=True)} for n, v in rec['eff']]
+        ops.append({'op': op['op'], 'items': items})
+        sidx.append(si)
+    reqs = []
+    init = [{'key': seq_key(pr['name']), 'args': {'value': {'k': 'none'}, 'type': pr['type'], 'is_array': pr.get('arr', False),
+                                                   'emb': None, 'refclass': False}} for pr in c['props']]
+    reqs.append(('hist', sidx, {'op': 'hist', 'init': init, 'ops': ops}))
+    for idx, lst in sorted(per_elem.items()):
+        e = c['elems'][idx]
+        reqs.append(('elem', (idx, [si for si, _ in lst]),
+                     {'op': 'elem', 'kind': e['cls'], 'args': {'value': {'k': 'none'}, 'type': e['type'], 'is_array': None,
+                                                                'emb': None, 'refclass': False}, 'values': [v for _, v in lst]}))
     return reqs
 
 
 def seq_compare(run, c, steps, answered):
-    """answered: [(si, ii, name, model answer)] in item order"""
-    by_step = {}
-    for si, ii, n, ans in answered:
-        by_step.setdefault(si, []).append((n, ans))
-    for si, items in by_step.items():
-        op, rec = c['ops'][si], steps[si]
-        exp_props = {k: list(v) for k, v in rec['before']['props'].items()}
-        exp_elems = [list(e) for e in rec['before']['elems']]
-        exp_out = 'ok'
-        for n, ans in items:
-            if 'exc' in ans:
-                exp_out = ans
-                break
-            if op['op'] == 'elemvalue':
-                exp_elems[op['idx']][1] = ans['ok']
-            else:
-                exp_props[n.lower()][1] = ans['ok']
-        if op['op'] == 'propvalue' and not items:
-            continue
-        got = (rec['out'], rec['after']['props'], rec['after']['elems'])
-        if got != (exp_out, exp_props, exp_elems):
-            run.disagree(dict(c, upto=si + 1), {'out': exp_out, 'props': exp_props, 'elems': exp_elems},
-                         {'out': got[0], 'props': got[1], 'elems': got[2]}, 'typed setter sequence: ' + rec['via'])
+    """answered: [(tag, indices, model answer)]"""
+    for tag, ind, ans in answered:
+        if tag == 'hist':
+            got = [{'exc': None if steps[si]['out'] == 'ok' else steps[si]['out'], 'state': steps[si]['after']['full']} for si in ind]
+            want = ans.get('ok')
+            if want != got:
+                k = next((j for j in range(min(len(got), len(want or []))) if want[j] != got[j]), 0)
+                run.disagree(dict(c, upto=(ind[k] + 1) if ind else 0), (want or ans)[k] if want else ans, got[k] if got else None,
+                             'typed element history: ' + (steps[ind[k]]['via'] if ind else 'init'))
+        else:
+            idx, sis = ind
+            got = [{'exc': None if steps[si]['out'] == 'ok' else steps[si]['out'],
+                    'elem': steps[si]['after']['elems'][idx]} for si in sis]
+            want = [{'exc': st['exc'], 'elem': [st['elem']['type'], st['elem']['value']]} for st in ans.get('steps', [])] \
+                if 'ok' in ans else ans
+            if want != got:
+                run.disagree(dict(c, upto=len(c['ops'])), want, got, 'value setter history of a ' + c['elems'][idx]['cls'])
 
 
 # ----------------------------------------------------------------------------------------------- the run
@@ -1373,6 +1527,9 @@ def eval_case(run, c, model=None):
         # (a typed element that cannot even be created with value None, e.g. a qualifier of type reference, has no setter to compare)
         setup_ok = c.pop('_setup_ok', False)
         return out, (cv_req(c, v) if c['via'] == 'cimvalue' or (c['via'].endswith('.value') and setup_ok) else None)
+    if c['sub'] == 'ctor':
+        out = run_ctor_real(run, c)
+        return out, ctor_req(c)
     if c['sub'] == 'seq':
         if 'upto' in c:
             c = dict(c, ops=c['ops'][:c['upto']])
@@ -1408,7 +1565,7 @@ def collect(run, rng, th, scale=1.0):
     """real code + oracle on every generated case; returns what the model comparison needs"""
     check_config(run)
     check_patterns(run)
-    cases = gen_int_cases(rng, th) + gen_dt_cases(rng, th) + gen_cv_cases(rng, th)
+    cases = gen_int_cases(rng, th) + gen_dt_cases(rng, th) + gen_cv_cases(rng, th) + gen_ctor_cases(rng, th)
     reqs, idx, outs = [], [], []
     for i, c in enumerate(cases):
         out, req = eval_case(run, c)
@@ -1460,7 +1617,8 @@ def collect(run, rng, th, scale=1.0):
         seq_reqs.append(seq_requests(c, steps))
         run.case(c, nontrivial=any(st['out'] == 'ok' for st in steps))
     run.extra['sizes'] = {'int': sum(1 for c in cases if c['sub'] == 'int'), 'dt': sum(1 for c in cases if c['sub'] == 'dt'),
-                          'cv': sum(1 for c in cases if c['sub'] == 'cv'), 'real': len(real_items), 'seq': len(seq_cases),
+                          'cv': sum(1 for c in cases if c['sub'] == 'cv'), 'ctor': sum(1 for c in cases if c['sub'] == 'ctor'),
+                          'real': len(real_items), 'seq': len(seq_cases),
                           'seq_steps': sum(len(x) for x in seq_steps)}
     return cases, outs, reqs, idx, real_items, (seq_cases, seq_steps, seq_reqs)
 
@@ -1470,7 +1628,7 @@ def run(run):
     run.assumptions += ASSUMPTIONS
     cases, outs, reqs, idx, real_items, (seq_cases, seq_steps, seq_reqs) = collect(run, run.rng, run.thorough)
     CH = 5000
-    seq_flat = [r[3] for rq in seq_reqs for r in rq]
+    seq_flat = [r[2] for rq in seq_reqs for r in rq]
     real_reqs = [{'op': 'real', 's': [it[3] for it in real_items[i:i + CH]]} for i in range(0, len(real_items), CH)]
     unp = gen_unp_items(run.rng, real_items, run.thorough)
     unp_real = [run_unp_real(txt, t) for txt, t in unp]
@@ -1484,7 +1642,7 @@ def run(run):
     answers = answers[:len(answers) - len(seq_flat)]
     pos = 0
     for c, steps, rq in zip(seq_cases, seq_steps, seq_reqs):
-        seq_compare(run, c, steps, [(si, ii, n, seq_answers[pos + j]) for j, (si, ii, n, _r) in enumerate(rq)])
+        seq_compare(run, c, steps, [(tag, ind, seq_answers[pos + j]) for j, (tag, ind, _r) in enumerate(rq)])
         pos += len(rq)
     lim = answers[0]
     # the limits / digits the model uses are the ones extracted from this repo; compare with the live classes
